@@ -13,7 +13,7 @@ pub const CONSTRUCTS: [&str; 33] = [
     "listcomma", "listmap", "mapcomma", "ifthen", "callsum", "subright", "string", "negidx", "listidx", "mapidx", "indexnum",
     "skipeq", "skipand", "skipor", "skipif", "skiplist", "skipmap", "skipcallarg", "escapes",
 ];
-pub const OPS: [&str; 8] = ["parse", "parse-rule", "display", "debug", "clone", "compare", "drop", "evaluate"];
+pub const OPS: [&str; 9] = ["parse", "parse-rule", "display", "debug", "clone", "compare", "drop", "evaluate", "evaluate-in-ruleset"];
 pub const STACKS: [(&str, usize); 2] = [("main8M", 8 << 20), ("worker2M", 2 << 20)];
 
 #[derive(Debug, Clone, PartialEq)]
@@ -94,7 +94,7 @@ pub fn run(ctx: &Ctx) {
          nested maps (also with trailing comma), if nested in condition / then / else, parentheses, index chains, nested contains, \
          right-nested subtraction, calls of sums, one long string literal of escapes, deep terms followed by a numeric index, numeric \
          index chains, and deep operands in never-evaluated positions of ==, and, or, if) x depth on a geometric ladder 16, 24, 32, ... (x1.5 / x1.33 steps) up to 2^17 (quick) / 2^18 \
-         (thorough) x operation in {parse, parse as rule, display, debug, clone, compare, drop, evaluate} x stack in {8 MiB, 2 MiB}; \
+         (thorough) x operation in {parse, parse as rule, display, debug, clone, compare, drop, evaluate, evaluate as a rule of a ruleset built through with_rule / with_rules} x stack in {8 MiB, 2 MiB}; \
          each case is one child process whose operation runs on a thread of exactly that stack size; trees are obtained by parsing \
          the text and leaked after the operation so that only the named operation recurses. Each (construct, operation, stack) \
          ladder is climbed until the first crash. Oracle: the child exits normally; death by signal is the property's failure; \
